@@ -11,6 +11,8 @@ import Qfx.Lemmas.CodecDictWalk
 import Qfx.Lemmas.CodecDictExample
 import Qfx.Lemmas.CodecDictStack
 import Qfx.Lemmas.CodecDictNest
+import Qfx.Lemmas.CodecWriteNest
+import Qfx.Lemmas.CodecRoundDict
 import Qfx.Lemmas.CodecGroupNested
 open Qfx Qfx.Spec
 
@@ -578,6 +580,19 @@ theorem C13_dict_wellnested_read_back (d : Dicts) (mt : Bytes) (fs : List DNode)
   C13_dict_anydepth_read_back d mt fs ha G S d0 tmplr es t8 t9 t35 z0 t10 preA postB hseg.ok hS hSz hzT hes hn
     hw8 hw9 hw35 hw10 h8 h9 h35 h10 hv hpost hzG hng10 hh10 hbl
 
+/-- THE WRITER SIDE OF THE DICTIONARY ROUND TRIP (the link `C13_roundtrip_dict_full` was missing): `RepeatingGroup.Write` of entries
+    that conform to their template (`Spec.entriesOK`: delimiter in every entry, only template tags, nested instances built with the
+    template's nested template) — the template describing the dictionary's member list `C` of the group (`TmplDict`: element items are leaf
+    members of `C`, group items are groups nested in `C` whose templates describe the nested member lists, recursively) — is the count field
+    followed by a member sequence that is WELL NESTED for the dictionary (`GroupWalk C`), at ANY nesting depth.  This is exactly the
+    hypothesis on the member fields in `C11_sections_dict_items`, `C11_faithful_dict_wellnested` and `C13_dict_wellnested_read_back`:
+    whatever `Write` emits for a dictionary-conforming group, the fixed dictionary-guided parser groups it along its nesting. -/
+theorem C13_write_is_wellnested (G : Tag) (tmpl : List Item) (es : List (List GFld)) (C : List DNode) (htd : TmplDict tmpl C)
+    (hok : entriesOK tmpl es = true) (tvs : List TagValue) (hw : writeGroup G tmpl es = .ok tvs)
+    (hwire : ∀ tv ∈ tvs, IsWire tv) :
+    ∃ W, tvs = countTV G es.length :: W ∧ GroupWalk C W :=
+  writeGroup_groupWalk G tmpl es C htd hok tvs hw hwire
+
 /-- a group as in `C13_read_nested` is itself a well-formed nested block of an enclosing group: it reads back (and is skipped)
     whenever what follows carries a tag of `S'` that is allowed inside (`S`) and is not one of its template tags -/
 theorem C13_nested_group_is_block (S S' : Tag → Prop) (G d : Tag) (tmplr : List Item)
@@ -690,28 +705,92 @@ theorem C13_trip_nodict_nested (fx : Fixes) (ops : List MOp) (hp : ∀ op ∈ op
         (fun f r hfr => (hZS f (by rw [hfr]; simp)).1) (fun f r hfr => (hZS f (by rw [hfr]; simp)).2) es hes hn
       exact ⟨p, f, gs, hparse, hfind, by rw [hfull]; exact hread, hlen, hent⟩
 
-/-! ## not (yet) theorems -/
+/-! ## the round trips end to end, from the API calls (the corrected `C13_roundtrip_nodict_full` / `C13_roundtrip_dict_full`)
 
-/-- round trip without dictionary, any nesting depth: what `getgrp` must observe after build + parse -/
-def C13_roundtrip_nodict_full : Prop :=
-  ∀ (a : Abs) (gt : Tag) (tmpl : List Item) (es : List (List GFld)) (m p : Message) (bytes : Bytes) (m' : Message) (f : Field),
-    alFind a.b gt = some (.grp tmpl es) → groupClaimable a gt tmpl es = true → reparsable Dicts.none a = true →
-    m.build Fixes.cur = .ok (bytes, m') → parseMessage Fixes.cur Dicts.none bytes = .ok p →
-    alFind p.body.lookup gt = some f →
-    ∃ gs, getGroup tmpl (f.full p.fields) = .ok gs ∧ gs.length = es.length
+The two statements that used to stand here as `def … : Prop` quantified over an abstract message `a : Abs` (the monitor's bookkeeping) and a
+model message `m` WITHOUT any hypothesis tying `a` to `m`; as written they were false for a reason that has nothing to do with the code
+(take `a` with a two-entry group and `m` built with one entry).  They are replaced by theorems that start from the API calls themselves:
+`runMOps ops Message.new = .ok m`, the body holding under `G` what `Write(G, template, entries)` returned.  The monitor clauses
+`group_roundtrip` / `followers_found` keep checking the same thing on the implementation, with `Abs` maintained by the monitor. -/
 
-/-- the same with the dictionary that defines the group (false on the unchanged code: D6) -/
-def C13_roundtrip_dict_full : Prop :=
-  ∀ (d : Dicts) (a : Abs) (gt : Tag) (tmpl : List Item) (es : List (List GFld)) (m p : Message) (bytes : Bytes) (m' : Message) (f : Field),
-    alFind a.b gt = some (.grp tmpl es) → groupClaimable a gt tmpl es = true → reparsable d a = true →
-    m.build Fixes.cur = .ok (bytes, m') → parseMessage Fixes.cur d bytes = .ok p →
-    alFind p.body.lookup gt = some f →
-    (∃ gs, getGroup tmpl (f.full p.fields) = .ok gs ∧ gs.length = es.length) ∧
-    ∀ t, t ≠ gt → (alFind a.b t).isSome → (alFind p.body.lookup t).isSome
+/-- THE ROUND TRIP WITHOUT DICTIONARY, END TO END, ANY NESTING DEPTH.  For every sequence of proper, SOH-free Message API operations that
+    leaves BeginString and MsgType set and, in the body under a tag `G`, the field `Write(G, template, entries)` — entries given at API
+    level (`GFld`: `Set…` of element fields and `SetGroup` of nested groups, in any order, with overwrites) that conform to the template
+    (`Spec.entriesOK`: delimiter in every entry, template tags only, nested instances built with the template's nested template), all tags
+    of the template tree and `G` distinct, every entry count below 2^63, and no other TagValue of the message (nor CheckSum) carrying `G` or
+    a tag of the template tree — `build`, `ParseMessage` WITHOUT dictionary (any `Fixes`) and `GetGroup(template)` on the parsed body return
+    exactly as many entries as were written. -/
+theorem C13_roundtrip_nodict (fx : Fixes) (ops : List MOp) (hp : ∀ op ∈ ops, op.proper ∧ op.wire) (m : Message)
+    (hrun : runMOps ops Message.new = .ok m)
+    (h8 : (alFind m.header.lookup 8).isSome = true) (h35 : (alFind m.header.lookup 35).isSome = true)
+    (G d0 : Tag) (tmplr : List Item) (esG : List (List GFld)) (tvs : List TagValue)
+    (hbody : alFind m.body.lookup G = some (.owned tvs)) (hwrite : writeGroup G (.elem d0 :: tmplr) esG = .ok tvs) (gbody : secND G = .b)
+    (hok : entriesOK (.elem d0 :: tmplr) esG = true) (hsm : SmallEs esG) (hn : esG.length < 9223372036854775808)
+    (hnd : (G :: allTmplTags (.elem d0 :: tmplr)).Nodup) (h10 : (10 : Tag) ∉ allTmplTags (.elem d0 :: tmplr))
+    (others : ∀ s k l, alFind (m.sec s).lookup k = some (.owned l) → ¬ (s = .b ∧ k = G) →
+      ∀ tv ∈ l, tv.tag ≠ G ∧ tv.tag ∉ allTmplTags (.elem d0 :: tmplr))
+    (bytes : Bytes) (m' : Message) (hbuild : m.build Fixes.cur = .ok (bytes, m')) (hsmall : bytes.length < 9223372036854775808) :
+    ∃ (p : Message) (f : Field) (gs : List GEntry),
+      parseMessage fx Dicts.none bytes = .ok p ∧ alFind p.body.lookup G = some f ∧
+      getGroup (.elem d0 :: tmplr) (f.full p.fields) = .ok gs ∧ gs.length = esG.length := by
+  have hndT : (allTmplTags (.elem d0 :: tmplr)).Nodup := (List.nodup_cons.1 hnd).2
+  have hGn : G ∉ allTmplTags (.elem d0 :: tmplr) := (List.nodup_cons.1 hnd).1
+  obtain ⟨bss, hlen, hwr, hes⟩ := write_blocks.2 (.elem d0 :: tmplr) esG d0 tmplr rfl hndT hok hsm
+  have htvs : tvs = countTV G bss.length :: bss.flatMap serBlocks := by
+    simp only [writeGroup, hwr] at hwrite; injection hwrite with hwrite; rw [hlen]; exact hwrite.symm
+  subst htvs
+  have hnot : ∀ t, t ∉ allTmplTags (.elem d0 :: tmplr) →
+      t ∉ deepTags (.elem d0 :: tmplr) ∧ findItem (.elem d0 :: tmplr) t = none := by
+    intro t ht
+    exact ⟨fun hd => ht ((sub_tags_split t).2 (Or.inr hd)),
+      findItem_none_of_not_mem _ _ (fun hm => ht ((sub_tags_split t).2 (Or.inl hm)))⟩
+  obtain ⟨p, f, gs, h1, h2, h3, h4, _⟩ := C13_trip_nodict_nested fx ops hp m hrun h8 h35 (fun t => t ∉ deepTags (.elem d0 :: tmplr)) G d0 tmplr bss
+    hbody gbody hes (by rw [hlen]; exact hn)
+    (fun tv htv e => hGn (e ▸ write_tags.2 _ esG hok _ hwr tv htv))
+    (fun t ht => top_not_deep hndT t ht) (hnot 10 h10).1 (hnot 10 h10).2
+    (fun s k l hl hne tv htv => ⟨(others s k l hl hne tv htv).1, hnot _ (others s k l hl hne tv htv).2⟩)
+    bytes m' hbuild hsmall
+  exact ⟨p, f, gs, h1, h2, h3, by rw [h4, hlen]⟩
+
+/-- THE ROUND TRIP WITH THE DICTIONARY THAT DEFINES THE GROUP, END TO END, ANY NESTING DEPTH (fixed code; false on the unchanged code: D6).
+    As above, and: `d` any dictionaries whose application dictionary knows the message type (`AppMsg`, field list `fs`) and defines `G` as a
+    repeating group with member list `C` (`groupOf fs G = some C`); the template describes `C` (`TmplDict`: element items = leaf members,
+    group items = nested groups, recursively — order and completeness free); the dictionary tree under `C` lists no tag at two levels of
+    one branch and none that is a header / trailer field or a top-level group (`TreeOK`); the MsgType field is a single TagValue; every
+    other TagValue of the message (and CheckSum) carries a tag that is listed nowhere in that tree, starts no repeating group of the
+    application dictionary, and is not 35.  Then `build`, `ParseMessage` WITH the dictionaries and `GetGroup(template)` on the parsed body
+    return exactly as many entries as were written.  (`Write` output is well nested for the dictionary — `C13_write_is_wellnested` —, the
+    fixed `parseGroup` walks well-nested sequences along their nesting — `groupWalk_walkN` —, the body therefore holds the group as one view
+    over count and members — `C11_sections_dict_items` —, and for the reader the same fields are well-formed member blocks —
+    `write_blocks`.) -/
+theorem C13_roundtrip_dict (d : Dicts) (mt : Bytes) (fs : List DNode) (ha : AppMsg d mt fs) (hh10 : isHeaderField d 10 = false)
+    (ops : List MOp) (hp : ∀ op ∈ ops, op.proper ∧ op.wire) (m : Message) (hrun : runMOps ops Message.new = .ok m)
+    (tv8 tv35 : TagValue)
+    (h8 : alFind m.header.lookup 8 = some (.owned [tv8])) (h35 : alFind m.header.lookup 35 = some (.owned [tv35])) (hmt : tv35.value = mt)
+    (G d0 : Tag) (tmplr : List Item) (esG : List (List GFld)) (tvs : List TagValue) (C : List DNode)
+    (hbody : alFind m.body.lookup G = some (.owned tvs)) (hwrite : writeGroup G (.elem d0 :: tmplr) esG = .ok tvs)
+    (hgC : groupOf fs G = some C) (htd : TmplDict (.elem d0 :: tmplr) C) (htree : TreeOK d C)
+    (hGh : isHeaderField d G = false) (hGt : isTrailerField d G = false)
+    (hok : entriesOK (.elem d0 :: tmplr) esG = true) (hsm : SmallEs esG) (hn : esG.length < 9223372036854775808)
+    (hnd : (allTmplTags (.elem d0 :: tmplr)).Nodup) (h10C : NotListed C 10)
+    (others : ∀ s k l, alFind (m.sec s).lookup k = some (.owned l) → ¬ (s = .b ∧ k = G) → ∀ tv ∈ l,
+      NotListed C tv.tag ∧ NoGroupTag d tv.tag ∧ tv.tag ≠ G ∧ (tv.tag = 35 → s = .h ∧ k = 35))
+    (bytes : Bytes) (m' : Message) (hbuild : m.build Fixes.cur = .ok (bytes, m')) (hsmall : bytes.length < 9223372036854775808) :
+    ∃ (p : Message) (f : Field) (gs : List GEntry), parseMessage Fixes.cur d bytes = .ok p ∧ alFind p.body.lookup G = some f ∧
+      getGroup (.elem d0 :: tmplr) (f.full p.fields) = .ok gs ∧ gs.length = esG.length := by
+  obtain ⟨hb, hw⟩ := runMOps_wired ops _ m Built.new Wired.new hp hrun
+  exact roundtrip_dict (d := d) ha hh10 m hb hw tv8 tv35 h8 h35 hmt G d0 tmplr esG tvs C hbody hwrite hgC htd htree hGh hGt hok hsm hn hnd
+    h10C others bytes m' hbuild hsmall
 
 /-! non-vacuity of `Walk2` and `SegOK`: Qfx/Lemmas/CodecDictExample.lean (NoPartyIDs with nested NoPartySubIDs, two entries) -/
 example := @exWalk2
 example := @exWalkN
+/-! hypotheses of `C13_roundtrip_dict` on the three-level example: the template describes the dictionary tree, API-level entries conform -/
+example := @exTmplDict
+example := @exEntriesOK
+example := @exSmall
+example := @exTmplNodup
+example := @exTreeOK
 example := @exSegOKN
 
 /-! non-vacuity: a two-entry group with a follower, read back by the model -/
@@ -732,7 +811,7 @@ example :
                                                                  C13_nested_flat_is_block
    "same fields and values in the same order"                 C13_roundtrip_flat (Write then Read, templates without nesting, any setter calls),
                                                              C13_read_inverts_wire_flat (whole Read, templates without nesting);
-                                                             C13_read_member, C13_read_delimiter (one step each, any template); nested: C13_roundtrip_nodict_full
+                                                             C13_read_member, C13_read_delimiter (one step each, any template); nested: C13_roundtrip_nodict (end to end, any depth)
    with the dictionary, nested groups: parse + GetGroup(nested template)           C13_dict_wellnested_read_back (any depth, hypotheses from the dictionary alone),
                                                              C13_dict_anydepth_read_back, C13_dict_depth2_read_back
    with the dictionary, group containing nested groups (D6 scenario), whole parse   C13_dict_depth2_group_mid, C13_dict_depth2_group_last (any arrangement of
